@@ -134,9 +134,9 @@ func cases(tier string, seed int64) []eng.Case {
 	r := eng.NewRand("c17-cases", seed)
 	thorough := tier == "thorough"
 	var out []eng.Case
-	mult := 1
+	mult := 8
 	if thorough {
-		mult = 6
+		mult = 60
 	}
 	logNs := []int{4, 5, 6, 8, 10}
 	if thorough {
@@ -146,7 +146,7 @@ func cases(tier string, seed int64) []eng.Case {
 		if thorough {
 			return 20 + r.N(31)
 		}
-		return 10 + r.N(16)
+		return 10 + r.N(26)
 	}
 	addScript := func(i int, rc ringCfg, dc distCfg) {
 		n := steps()
